@@ -9,7 +9,7 @@ acceptance, the same refusal.  (With two verifiers under one key id the *first* 
 namespace Cose.Props.SignOrder
 open Cose.Go Cose.Msg
 
-theorem find?_perm_of_unique {α} (p : α → Bool) {l l' : List α} (hp : l'.Perm l)
+theorem find_perm_of_unique {α} (p : α → Bool) {l l' : List α} (hp : l'.Perm l)
     (hu : l.Pairwise (fun a b => ¬(p a = true ∧ p b = true))) : l'.find? p = l.find? p := by
   induction hp with
   | nil => rfl
@@ -34,7 +34,7 @@ def keyId (v : Verifier) : Bytes := v.key.kid.getD []
 theorem lookup_perm {vs vs' : List Verifier} (hp : vs'.Perm vs) (hnd : (vs.map keyId).Nodup) (kid : Option Bytes) :
     lookupVerifier vs' kid = lookupVerifier vs kid := by
   unfold lookupVerifier
-  refine find?_perm_of_unique _ hp ?_
+  refine find_perm_of_unique _ hp ?_
   rw [List.nodup_iff_pairwise_ne, List.pairwise_map] at hnd
   refine hnd.imp ?_
   intro a b hne hboth
